@@ -52,6 +52,11 @@ func ComputeDiff(fsys FileSystem, oldFile, newFile string) (*models.DiffOutput, 
 		if os.IsNotExist(statErr) {
 			return []diff.FingerprintResult{}, nil
 		}
+		// any other failure (a path below a regular file, a name too long, no permission) leaves
+		// info nil: report it instead of dereferencing it
+		if statErr != nil {
+			return nil, statErr
+		}
 		if info.Size() > MaxSourceFileSize {
 			return nil, fmt.Errorf("file %s exceeds maximum analysis size of %d bytes", path, MaxSourceFileSize)
 		}
